@@ -235,6 +235,11 @@ def exec_random_graph(trace, ctx):
     n = trace["n"]
     edges = [tuple(e) for e in trace["edges"]]
     pos = np.array(trace["positions"])
+    unit = 1.0
+    if trace["seed"] % 8 == 6:
+        unit = rng.choice([1e-4, 1e-3, 1e3])            # other length units: nothing in the statement knows what a nanometre is
+        pos = pos * unit
+        ctx.probe("other_length_units")
     tree = len(edges) == n - 1
     factor = None
     if trace["table"] == "perturbed":
@@ -303,7 +308,7 @@ def exec_random_graph(trace, ctx):
                 elif only_displ:
                     # the displacement is requested, the atom is left to chance
                     drawn.clear()
-                    d = np.array(gen.unit_vec(rng)) * rng.choice([0.01, 0.3, 5.0])
+                    d = np.array(gen.unit_vec(rng)) * rng.choice([0.01, 0.3, 5.0]) * unit
                     out = move_mol_atom(arr, table, displ=d.copy(), sigma_scale=trace["sigma_scale"])
                     moved = drawn.get("i")
                     ctx.probe("displacement_given_atom_random")
@@ -315,7 +320,7 @@ def exec_random_graph(trace, ctx):
                         moved = hit[0] if hit else None
                 elif explicit:
                     moved = rng.randrange(n)
-                    d = np.array(gen.unit_vec(rng)) * rng.choice([0.01, 0.3, 5.0])
+                    d = np.array(gen.unit_vec(rng)) * rng.choice([0.01, 0.3, 5.0]) * unit
                     out = move_mol_atom(arr, table, atom_index=moved, displ=d.copy(), sigma_scale=trace["sigma_scale"])
                 else:
                     seen.clear()
@@ -365,6 +370,9 @@ def exec_chi2(trace, ctx):
     rng = _r.Random(trace["seed"])
     nf, nm = trace["nf"], trace["nm"]
     sp = trace["spread"]
+    if trace["seed"] % 9 == 5:
+        sp = sp * rng.choice([1e-4, 1e-3, 1e3])        # the same sets in other length units (absolute thresholds would show)
+        ctx.probe("other_length_units")
     fixed = np.array([[rng.uniform(-sp, sp) for _ in range(3)] for _ in range(nf)])
     mob0 = np.array([[rng.uniform(-sp, sp) for _ in range(3)] for _ in range(nm)])
     far = np.zeros(3)
